@@ -2,13 +2,19 @@
 From BV Require Import Base.Prelude Model.Block Model.ForkDB Model.Forkable Model.ForkableLookups
   Model.Burst Model.Hub Model.CursorResolver Model.Joining
   Spec.Consumer Spec.Universe Check.Burst_Check Check.C07_Check Spec.C06_Spec Spec.C07_Spec Spec.C09_Spec
-  Spec.C07_Compose_Spec Proofs.C07_ComposeCheck Proofs.C07_Compose.
+  Spec.C07_Compose_Spec Proofs.C07_ComposeCheck Proofs.C07_Compose Proofs.C07_ComposeCursor.
 Local Open Scope N_scope.
 
 (* number mode, default filter, no stop block: hub_agrees of C07_seamless_full discharged from the world *)
 Theorem c07_seamless_num : C07_seamless_num.
 Proof. exact c07_seamless_num_proof. Qed.
 Print Assumptions c07_seamless_num.
+
+(* cursor mode out of the files (C06's output glued to the hub's burst); partial: the case in which the hub
+   serves the cursor itself when the stream starts is excluded by hypothesis (no handoff: C05's subject) *)
+Theorem c07_seamless_cursor_partial : C07_seamless_cursor_files.
+Proof. exact c07_seamless_cursor_files_proof. Qed.
+Print Assumptions c07_seamless_cursor_partial.
 
 (* ---- non-vacuity ---- *)
 
@@ -71,3 +77,42 @@ Example c07_compose_nonvacuous_run :
   = ([(SNewIrr, 5); (SNewIrr, 6); (SNewIrr, 7); (SNewIrr, 8); (SNewIrr, 9); (SNewIrr, 10); (SNewIrr, 11);
       (SNewIrr, 12); (SNewIrr, 13); (SNewIrr, 14)], JNil).
 Proof. vm_compute. split; reflexivity. Qed.
+
+(* cursor mode: the consumer stopped at New 109 (a sibling of block 9 that only it and the forked-blocks store
+   know), cursor LIB 6: it holds 7, 8 (canonical) and 109 (forked).  The hub (lowest block 13) does not serve
+   that cursor; the resolver undoes 109, the files bring 9..12, the join is at 13, the rest is live. *)
+Definition cx_f9 : block := mkBlock 109 9 8 6.
+Definition cx_cu : cursor := mkCursor SNew (mkR 109 9) (mkR 109 9) (mkR 6 6).
+Definition cx_cc : jcfg := mkJ 2 0 10 1 0 (Some cx_cu) 0 0 0.
+
+Example c07_compose_nonvacuous_cursor :
+  hub_of_universe cx_U cx_cc cx_w /\
+  eventual_tip cx_cc cx_w cx_canon /\ files_agree cx_cc cx_w cx_merged /\
+  j_mode cx_cc = 1 /\ j_cursor cx_cc = Some cx_cu /\ j_filter cx_cc = 0 /\ j_stop cx_cc = 0 /\ 0 < j_bundle cx_cc /\
+  (h_ready (w_hub cx_w) = true -> forall evs, blocks_from_cursor (h_f (w_hub cx_w)) cx_cu <> BOk evs) /\
+  from_num (rn (cu_lib cx_cu)) cx_canon = cx_b 6 :: map cx_b [7;8;9;10;11;12;13;14;15;16;17;18;19;20] /\
+  bref (cx_b 6) = cu_lib cx_cu /\
+  cursor_state cx_canon [cx_f9] cx_cu (cx_b 6) [cx_b 7; cx_b 8] [cx_f9] /\
+  cx_show (stream_run cx_cc cx_w [(3, 1); (12, 2)] 15 cx_merged [cx_f9])
+  = ([(SUndo, 109); (SNewIrr, 9); (SNewIrr, 10); (SNewIrr, 11); (SNewIrr, 12); (SNewIrr, 13); (SNew, 14); (SNew, 15);
+      (SNew, 116); (SUndo, 116); (SNew, 16); (SNew, 17); (SNew, 18); (SNew, 19); (SNew, 20)], JNil).
+Proof.
+  destruct c07_compose_nonvacuous_hyps as (_ & _ & Hhub & _ & _ & _ & _ & _).
+  split; [exact Hhub|].
+  split; [apply eventual_tip_b_sound; vm_compute; reflexivity|].
+  split; [apply files_agree_b_sound; vm_compute; reflexivity|].
+  split; [reflexivity|]. split; [reflexivity|]. split; [reflexivity|]. split; [reflexivity|]. split; [reflexivity|].
+  split.
+  { intros _ evs. assert (E : blocks_from_cursor (h_f (w_hub cx_w)) cx_cu = BErr) by (vm_compute; reflexivity).
+    rewrite E. discriminate. }
+  split; [vm_compute; reflexivity|]. split; [reflexivity|].
+  split.
+  { unfold cursor_state. split.
+    - cbn. repeat split; lia.
+    - split; [repeat constructor; vm_compute; tauto|]. split.
+      + constructor; [|constructor]. unfold off_canon. vm_compute. intros H.
+        repeat (destruct H as [H|H]; [discriminate|]). exact H.
+      + split; [intros _; reflexivity|]. split; [intros H; discriminate|].
+        intros x [<-|[]]. vm_compute. reflexivity. }
+  vm_compute. reflexivity.
+Qed.
